@@ -809,7 +809,17 @@ def enc_case(ctx, rng):
     from whoosh.filedb.filestore import RamStorage
     from whoosh.util import numlists, varints
     from whoosh.util.numlists import GrowableArray
-    st = RamStorage()
+    # the structured-file layer reads differently from a real OS file (array.fromfile, no buffer) than from a RAM / mapped
+    # buffer: both are exercised
+    stkind = random.Random("c20-enc-storage:%r" % rng.random()).choice(["ram", "ram", "file", "file-nommap"])
+    tmpd = None
+    if stkind == "ram":
+        st = RamStorage()
+    else:
+        from whoosh.filedb.filestore import FileStorage
+        tmpd = tempfile.mkdtemp(prefix="vf-c20-enc-")
+        st = FileStorage(tmpd, supports_mmap=(stkind == "file"))
+    ctx.count("enc.storage.%s" % stkind)
     kind = rng.choice(["Varints", "ByteEncoding", "UShortEncoding", "UIntEncoding", "Simple16", "GInts",
                        "varint", "growable", "growable", "delta", "structfile", "structfile", "base85"])
     ctx.count("enc.cases")
@@ -999,8 +1009,13 @@ def enc_case(ctx, rng):
                 if got != v:
                     ctx.fail("enc", "structfile.get_%s" % t, dict(w, value=v, pos=pos), "got %r" % (got,))
                     break
-    ctx.guard("enc", w, body)
-    return ("enc", tuple(shape)), True, w
+    w["storage"] = stkind
+    try:
+        ctx.guard("enc", w, body)
+    finally:
+        if tmpd:
+            shutil.rmtree(tmpd, ignore_errors=True)
+    return ("enc", tuple(shape) + (stkind,)), True, w
 
 
 def extsort_case(ctx, rng):
